@@ -35,6 +35,8 @@ const STACK_WORDS: usize = 0x6000; // 192 KiB per coroutine
 pub enum Req {
     /// `Command::fprd(..).receive_slice(len)` through `MainDevice::single_pdu`.
     Read { len: u16 },
+    /// As `Read`, then the view is shortened from the front by `ct` bytes before it is read.
+    ReadTrim { len: u16, ct: usize },
     /// `Command::fpwr(..).send_receive_slice(data)`.
     Write { len: u16 },
     /// One frame with `pdus` read datagrams built through the hook re-exports and read back with
@@ -154,7 +156,7 @@ pub struct ExpPdu {
 
 pub fn expected_pdus(tag: u16, req: &Req) -> Vec<ExpPdu> {
     match req {
-        Req::Read { len } => vec![ExpPdu {
+        Req::Read { len } | Req::ReadTrim { len, .. } => vec![ExpPdu {
             cmd: 0x04,
             adp: adp_of(tag),
             ado: ado_of(tag, 0),
@@ -603,14 +605,50 @@ fn app_body(
             }
             w(|w| w.cur_tag[task] = Some(tag));
             let res: Polled<Result<Outcome, Error>> = match req {
-                Req::Read { len } => {
+                Req::Read { len } | Req::ReadTrim { len, .. } => {
                     let fut = Command::fprd(exp[0].adp, exp[0].ado)
                         .with_wkc(exp[0].wkc)
                         .receive_slice(md, *len);
                     match block_on(fut, &flag, cfg.abandon) {
-                        Polled::Ready(Ok(pdu)) => {
+                        Polled::Ready(Ok(mut pdu)) => {
+                            let mut want = exp[0].resp_data.clone();
+                            if let Req::ReadTrim { ct, .. } = req {
+                                pdu.trim_front(*ct);
+                                want = want[(*ct).min(want.len())..].to_vec();
+                                if pdu.len() != want.len() {
+                                    w(|w| {
+                                        w.violate(
+                                            "trim-front-length".into(),
+                                            format!(
+                                                "view of {} bytes shortened by {} reports len {} (expected {})",
+                                                len, ct, pdu.len(), want.len()
+                                            ),
+                                        )
+                                    });
+                                }
+                            }
                             let bytes = pdu.to_vec();
-                            let stale = hold_view(task, tag, 0, pdu, exp[0].resp_data.clone());
+                            if let Req::ReadTrim { ct, .. } = req {
+                                if bytes != want {
+                                    w(|w| {
+                                        w.violate(
+                                            "trim-front-exposes-bytes-outside-datagram".into(),
+                                            format!(
+                                                "view of {} bytes shortened by {} shows {:02x?}, the datagram's remaining data is {:02x?}",
+                                                len, ct, bytes, want
+                                            ),
+                                        )
+                                    });
+                                }
+                                // report the untrimmed equivalent so the completion oracle stays simple
+                                let _ = &bytes;
+                            }
+                            let bytes = if matches!(req, Req::ReadTrim { .. }) {
+                                exp[0].resp_data.clone()
+                            } else {
+                                bytes
+                            };
+                            let stale = hold_view(task, tag, 0, pdu, want);
                             Polled::Ready(Ok(if stale {
                                 Outcome::OkStaleView(vec![(bytes, true)])
                             } else {
